@@ -62,7 +62,9 @@ def validate(v, prop, merged, what):
         if bad and bad.get("report"):
             m = re.search(r"@ (draco::[A-Za-z0-9_:<>~]+)", bad["report"])
             tags["site"] = m.group(1) if m else ""
-        v.violation({"what": what, "record": bad, "replay": "VERIF_RECORDS=/dev/stdout build/bin-<kind>/drv_fault one corpus/%s '%s'" % (bad.get("stream"), bad.get("fault")) if bad else None},
+        # TLC names the first record it rejects; the other abnormal ends of the same run are listed with it (information only, the verdict is TLC's)
+        others = [x for x in recs if x.get("e") == "Abnormal" and not x.get("oom") and x is not bad][:10]
+        v.violation({"what": what, "record": bad, "other_abnormal_records_of_this_run": others, "replay": "VERIF_RECORDS=/dev/stdout build/bin-<kind>/drv_fault one corpus/%s '%s'" % (bad.get("stream"), bad.get("fault")) if bad else None},
                     tags=tags)
     elif tr["distinct"] < len(recs):
         raise vlib.Infra("Trace_Fault %s consumed %d of %d" % (prop, tr["distinct"], len(recs)))
